@@ -8,7 +8,7 @@ LEVEL = "proof"
 
 P2P, P2M, M2M, M2L, L2L, L2P = 1, 2, 4, 8, 16, 32
 CHAIN = [P2M, M2M, M2L, L2L, L2P]
-OPNAME = {P2P: {"P2P", "P2PI"}, P2M: {"P2M"}, M2M: {"M2M"}, M2L: {"M2L"}, L2L: {"L2L"}, L2P: {"L2P"}}
+OPNAME = {P2P: {"P2P", "P2PI", "P2PT"}, P2M: {"P2M"}, M2M: {"M2M"}, M2L: {"M2L"}, L2L: {"L2L"}, L2P: {"L2P"}}
 
 
 def random_partition(r):
@@ -33,8 +33,8 @@ def gen_cases(tier, seed, configs):
         r = gen.rng(seed, "C12", k)
         D, H, periodic, kind, parts, bs, mode = corefam.random_tree_params(r, configs, max_n=48, big=(tier != "quick"))
         upper = r.randint(0, H) if r.random() < 0.5 else (1 if periodic else 2)
-        ex = r.choice(["seq", "seq", "omp"])
-        extra = " sched=2 seed=%d workers=%d" % (r.randrange(10 ** 6), r.choice([1, 3, 8])) if ex == "omp" else ""
+        ex = r.choice(["seq", "seq", "omp", "omp", "starpu", "specx"])      # "all executors": StarPU and Specx under their mock runtimes
+        extra = " sched=2 seed=%d workers=%d" % (r.randrange(10 ** 6), r.choice([1, 3, 8])) if ex != "seq" else ""
         b = "build bs=%d mode=%d" % (bs, mode)
         stagings = [[63], [P2M | M2M, M2L | P2P, L2L | L2P]] + [random_partition(r) for _ in range(3)]
         body = []
@@ -94,7 +94,82 @@ def evaluate(res):
     return corr, orc[:6]
 
 
+def tsm_family(rep, tier, seed, replay=None):
+    """staged execute() calls on the target/source executors (sequential, OpenMP, StarPU and Specx under the mocks)"""
+    import tsm
+    binaries, bad = tsm.build(corefam.ALL_CONFIGS, starpu=True)
+    if not binaries:
+        if bad:
+            first = sorted(bad.items())[0]
+            rep.violation("harness-does-not-compile:tsm", first[1][-4000:], False, "no configuration of harness/h_tsm.cpp compiles against /repo/src")
+        return
+    usable = [c for c in corefam.ALL_CONFIGS if c in binaries]
+    cases = []
+    if replay:
+        c = tsm.parse_replay(replay)
+        stagings, cur, ex = [], None, "tsm"
+        for ln in c["lines"]:
+            t = ln.split()
+            if t[0] == "mark":
+                cur = [] if t[1].startswith("st") else None
+                if cur is not None:
+                    stagings.append(cur)
+            elif t[0] == "exec" and cur is not None:
+                ex = t[1]
+                cur.append(int([x for x in t if x.startswith("flags=")][0][6:]))
+        c["meta"].update({"stagings": stagings, "ex": ex})
+        cases = [c]
+    else:
+        for k in range(40 if tier == "quick" else 600):
+            r = gen.rng(seed, "C12t", k)
+            D, periodic = r.choice(usable)
+            H = gen.pick_height(r, D)
+            if periodic and H < 2:
+                H = 2
+            kind, src, tgt = tsm.gen_sets(r, D, H, max_n=24)
+            bs = gen.pick_bs(r, max(len(set(src)), len(set(tgt))))
+            mode = r.randrange(2)
+            upper = r.randint(0, H) if r.random() < 0.5 else (1 if periodic else 2)
+            ex = r.choice(["tsm", "tsm", "omptsm", "omptsm", "starputsm", "specxtsm"])
+            extra = " sched=2 seed=%d workers=%d" % (r.randrange(10 ** 6), r.choice([1, 3, 8])) if ex != "tsm" else ""
+            stagings = [[63], [P2M | M2M, M2L | P2P, L2L | L2P]] + [random_partition(r) for _ in range(3)]
+            body = []
+            for si, st in enumerate(stagings):
+                body += ["mark st%d" % si, "buildtsm bs=%d mode=%d" % (bs, mode)] + ["exec %s flags=%d upper=%d%s" % (ex, f, upper, extra) for f in st] + ["dump tsmvalues"]
+            for f in (P2P, P2M, M2M, M2L, L2L, L2P):
+                pre = [g for g in CHAIN if g < f and f != P2P]
+                body += ["mark pre%d" % f, "buildtsm bs=%d mode=%d" % (bs, mode)] + ["exec %s flags=%d upper=%d%s" % (ex, sum(pre), upper, extra)] * (1 if pre else 0) + ["dump tsmvalues"]
+                body += ["mark one%d" % f, "buildtsm bs=%d mode=%d" % (bs, mode)] + ["exec %s flags=%d upper=%d%s" % (ex, sum(pre), upper, extra)] * (1 if pre else 0) + \
+                        ["mark only%d" % f, "exec %s flags=%d upper=%d%s" % (ex, f, upper, extra), "dump tsmvalues"]
+            cases.append(tsm.make_case("c12t-%d" % k, D, H, periodic, src, tgt, bs, mode, body, {"kind": kind, "upper": upper, "stagings": stagings, "ex": ex}))
+    n = 0
+    for res in core.run_cases(cases, binaries):
+        n += 1
+        c = res.case
+        text = "\n".join(c["lines"]) + "\n"
+        if res.crash is not None:
+            sig = corefam.crash_signature(res.crash)
+            if "Assertion" in sig:
+                continue          # assertion failures belong to C15
+            rep.violation("crash:" + sig, "# harness aborted inside this target/source case\n# " + res.crash.replace("\n", "\n# ") + "\n" + text, True,
+                          "the real library aborted on target/source case %s: %s" % (c["name"], sig))
+            continue
+        if res.cpp is None or res.lean is None or "stagings" not in c["meta"]:
+            continue
+        corr, orc = evaluate(res)
+        for sig, msg in orc:
+            rep.violation(sig.replace("C12:", "C12:tsm-"), "# %s\n%s" % (msg, text), True, "target/source case %s: %s" % (c["name"], msg))
+        if corr and not orc:
+            rep.violation("corr:tsm-" + corr[0][0], "# correspondence broke: %s\n%s" % (corr[0][1], text), False, "target/source case %s: %s" % (c["name"], corr[0][1]))
+    rep.cov["target_source_staged_cases"] = n
+
+
 def run(rep, tier, seed, replay, proof_ok, proof_msg):
-    corefam.standard_run(rep, tier, seed, replay, proof_ok, proof_msg, gen_cases, evaluate, omp=True,
-                         corr_name="staged execute() calls: library (sequential and OpenMP/mock) vs Lean model")
+    if replay and any(ln.startswith("partsS ") for ln in open(replay)):
+        tsm_family(rep, tier, seed, replay)
+        return
+    if not replay:
+        tsm_family(rep, tier, seed)
+    corefam.standard_run(rep, tier, seed, replay, proof_ok, proof_msg, gen_cases, evaluate, omp=True, starpu=True,
+                         corr_name="staged execute() calls: library (sequential, OpenMP/mock, StarPU/mock, Specx/mock) vs Lean model")
     rep.assumptions += ["OpenMP executor driven by the mock runtime with a random legal schedule"]
